@@ -30,6 +30,9 @@ type c13Sched struct {
 	events  chan c13Event
 	grant   []chan struct{}
 	current int
+	// read locks held, per mutex and goroutine: sync.RWMutex gives a waiting writer precedence over new
+	// readers, so a goroutine that asks for a read lock it already holds while a writer waits never gets it
+	readers map[*env.VerifRWMutex]map[int]int
 }
 
 func (s *c13Sched) Acquire(m *env.VerifRWMutex, write bool) {
@@ -43,6 +46,9 @@ func (s *c13Sched) Release(m *env.VerifRWMutex, write bool) {
 		m.Writer = false
 	} else {
 		m.Readers--
+		if s.readers[m] != nil {
+			s.readers[m][s.current]--
+		}
 	}
 }
 
@@ -130,6 +136,18 @@ func c13Apply(envs []*env.Env, op c12Op) (out string) {
 	case "PeekExt": // an external lookup that looks at the scope it serves
 		e.SetExternalLookup(&c13ReExt{e: e})
 		return "(none)"
+	case "String": // the remaining exported operations: explored for deadlock and panic only
+		_ = e.String()
+		return "(none)"
+	case "DeepCopy":
+		e.DeepCopy()
+		return "(none)"
+	case "Addr":
+		e.Addr(op.S)
+		return "(none)"
+	case "Path":
+		e.GetEnvFromPath([]string{op.S})
+		return "(none)"
 	case "Snap":
 		c := e.Copy()
 		d := c13Dump(c, 0)
@@ -140,8 +158,11 @@ func c13Apply(envs []*env.Env, op c12Op) (out string) {
 }
 
 func c13OpSx(op c12Op) string {
-	if op.K == "Snap" {
+	switch op.K {
+	case "Snap":
 		return sxList("Snap", sxInt(op.E))
+	case "String", "DeepCopy", "Addr", "Path": // never sent to the model
+		return sxList(op.K, sxInt(op.E))
 	}
 	return c12SxOp(op)
 }
@@ -158,7 +179,7 @@ func c13RunOnce(initOps []c12Op, threads [][]c12Op, prefix []int) c13Result {
 		}
 	}
 	nt := len(threads)
-	s := &c13Sched{events: make(chan c13Event), grant: make([]chan struct{}, nt)}
+	s := &c13Sched{events: make(chan c13Event), grant: make([]chan struct{}, nt), readers: map[*env.VerifRWMutex]map[int]int{}}
 	res := c13Result{Outs: make([][]string, nt)}
 	for i := range s.grant {
 		s.grant[i] = make(chan struct{})
@@ -194,6 +215,16 @@ func c13RunOnce(initOps []c12Op, threads [][]c12Op, prefix []int) c13Result {
 			}
 		}
 		sort.Ints(enabled)
+		for tid, ev := range pending {
+			if ev.write || s.readers[ev.m][tid] == 0 {
+				continue
+			}
+			for _, other := range pending {
+				if other.write && other.m == ev.m { // the writer waits for tid's first read lock, tid's second waits for the writer
+					enabled = nil
+				}
+			}
+		}
 		if len(enabled) == 0 {
 			res.Deadlock = true
 			break
@@ -215,6 +246,10 @@ func c13RunOnce(initOps []c12Op, threads [][]c12Op, prefix []int) c13Result {
 			ev.m.Writer = true
 		} else {
 			ev.m.Readers++
+			if s.readers[ev.m] == nil {
+				s.readers[ev.m] = map[int]int{}
+			}
+			s.readers[ev.m][tid]++
 		}
 		s.current = tid
 		s.grant[tid] <- struct{}{}
@@ -364,6 +399,13 @@ func c13Directed() []c13Program {
 			{{K: "Type", E: 1, S: "Tzz"}}, {{K: "DefineType", E: 1, S: "Tb", T: 2}, {K: "Snap", E: 1}}}},
 		{Reentrant: true, Init: with(c12Op{K: "PeekExt", E: 1}), Threads: [][]c12Op{
 			{{K: "Type", E: 1, S: "Tzz"}, {K: "Get", E: 1, S: "zz"}}, {{K: "Define", E: 1, S: "b", V: tv(12)}}, {{K: "DefineType", E: 1, S: "Tb", T: 2}}}},
+		// the operations outside the sequential model (printing, deep copy, address, module path) next to writers
+		{Reentrant: true, Init: with(c12Op{K: "Define", E: 1, S: "a", V: tv(3)}, c12Op{K: "DefineType", E: 1, S: "Ta", T: 2}), Threads: [][]c12Op{
+			{{K: "String", E: 1}}, {{K: "Define", E: 1, S: "b", V: tv(12)}}, {{K: "DefineType", E: 1, S: "Tb", T: 4}}}},
+		{Reentrant: true, Init: with(c12Op{K: "Define", E: 1, S: "a", V: tv(3)}), Threads: [][]c12Op{
+			{{K: "DeepCopy", E: 1}, {K: "String", E: 0}}, {{K: "Set", E: 1, S: "p", V: tv(12)}, {K: "Delete", E: 1, S: "a"}}}},
+		{Reentrant: true, Init: with(c12Op{K: "Define", E: 1, S: "a", V: tv(3)}), Threads: [][]c12Op{
+			{{K: "Addr", E: 1, S: "a"}, {K: "Addr", E: 1, S: "p"}}, {{K: "Path", E: 1, S: "a"}}, {{K: "DeleteGlobal", E: 1, S: "a"}, {K: "Define", E: 0, S: "a", V: tv(13)}}}},
 		{Reentrant: true, Init: with(c12Op{K: "PeekExt", E: 0}), Threads: [][]c12Op{ // the lookup sits on the parent: reached through the child
 			{{K: "Get", E: 1, S: "zz"}}, {{K: "Define", E: 0, S: "q", V: tv(12)}}, {{K: "Define", E: 1, S: "b", V: tv(13)}}}},
 	}
